@@ -44,7 +44,8 @@ def effective_funcs(prog: Program) -> List[FuncInfo]:
     def add(f: FuncInfo) -> None:
         out.append(f)
         for g in list(f.nested.values()) + list(f.lambdas):
-            add(g)
+            # (a local function has helpers inlined into it like any other function: the enclosing view does not descend into it)
+            add(prog.view(g) if getattr(prog, 'inliner', None) is not None else g)
     for f in prog.all_funcs():
         if f.parent is not None or id(f.node) in sub:
             continue
